@@ -65,6 +65,8 @@ package step
 //@ pred lifecycleOK(lc Lifecycle[LifecycleStageWithSchema]) = forall i int :: 0 <= i && i < len(lc.Stages) ==> lc.Stages[i].ID != "" && \
 //@     (forall n string :: indom(lc.Stages[i].NextStages, n) ==> lc.Stages[i].NextStages[n] != "") && \
 //@     (forall o string :: indom(lc.Stages[i].Outputs, o) ==> lc.Stages[i].Outputs[o] != nil)
+//@ pred inputSchemasOK(lc Lifecycle[LifecycleStageWithSchema]) = forall i int, f string :: 0 <= i && i < len(lc.Stages) && indom(lc.Stages[i].InputSchema, f) ==> \
+//@     lc.Stages[i].InputSchema[f] != nil
 //@ func iface RunnableStep.Lifecycle(input)
 //@   ensures [assumed-lifecycle-shape] result1 == nil ==> lifecycleOK(result)
 //@ func iface RunnableStep.RunSchema()
